@@ -119,13 +119,14 @@ Print Assumptions C19_history_across_a_top_level_wrap_refines_the_spec.
    state has exactly the trace of the snapshot specification on the same program *)
 Theorem C19_one_run_across_a_top_level_wrap :
   forall W behav, core_behav behav ->
-  forall fuel nl h1 l c h h2 s1 s2 s',
-    (1 < W)%N -> core_prog h1 -> core_prog h2 ->
+  forall fuel nl h1 c h2 s1 s2 s',
+    (1 < W)%N -> core_prog h1 -> core_prog h2 -> is_add c = true ->      (* c: Append, Prepend or Insert *)
     run W GenCL.remove_checks_removed GenCL.insert_checks_removed GenCL.owns_checks_removed behav (S fuel) (init nl) h1 = Some s1 -> wrapped s1 = false ->
-    do_append W s1 l c h = Some s2 -> wrapped s2 = true ->
-    run W GenCL.remove_checks_removed GenCL.insert_checks_removed GenCL.owns_checks_removed behav (S fuel) (init nl) (h1 ++ Append l c h :: h2) = Some s' ->
+    step W GenCL.remove_checks_removed GenCL.insert_checks_removed GenCL.owns_checks_removed behav
+         (run W GenCL.remove_checks_removed GenCL.insert_checks_removed GenCL.owns_checks_removed behav fuel) (S fuel) s1 c = Some s2 -> wrapped s2 = true ->
+    run W GenCL.remove_checks_removed GenCL.insert_checks_removed GenCL.owns_checks_removed behav (S fuel) (init nl) (h1 ++ c :: h2) = Some s' ->
     (forall s3, run W GenCL.remove_checks_removed GenCL.insert_checks_removed GenCL.owns_checks_removed behav (S fuel) (clear_wrapped s2) h2 = Some s3 -> wrapped s3 = false) ->
-    exists ss', s_run behav (S fuel) (s_init nl) (h1 ++ Append l c h :: h2) = Some ss' /\ strace ss' = trace s'.
+    exists ss', s_run behav (S fuel) (s_init nl) (h1 ++ c :: h2) = Some ss' /\ strace ss' = trace s'.
 Proof. exact run_across_one_top_level_wrap. Qed.
 Print Assumptions C19_one_run_across_a_top_level_wrap.
 
